@@ -446,10 +446,18 @@ ICUFormatNumberFunctor::UnlocalizePatternFunctor::operator()(
             case XalanUnicode::charPerMilleSign:
             case XalanUnicode::charDigit_0:
                 {
-                    theResult.push_back(XalanUnicode::charAmpersand);
+                    // A character that is special in the non-localized pattern, but
+                    // not in this decimal format: quote it.
+                    theResult.push_back(XalanUnicode::charApostrophe);
                     theResult.push_back(*iterator);
-                    theResult.push_back(XalanUnicode::charAmpersand);
+                    theResult.push_back(XalanUnicode::charApostrophe);
                 }
+                break;
+
+            default:
+                // An ordinary character of a prefix or suffix...
+                theResult.push_back(*iterator);
+                break;
             }
         }
 
